@@ -82,6 +82,10 @@ def main(tier, seed):
             # types spread over several namespaces with cyclic references between them: headers then forward-declare / include across namespaces
             tooltier.reference_graph_features(prog, rng, keyword_fields=False, renames=False, namespaces=True)
             emit_rust.assign_abi_names(prog)
+        if len(prog.modules) > 1:
+            # decorations may have added types (iterator opaques ...): each module imports everything the other one declares
+            prog.modules[1].uses = ["crate::ffi::%s" % t.name for t in prog.modules[0].items]
+            prog.modules[0].uses = ["crate::ffi2::%s" % t.name for t in prog.modules[1].items]
         cfg = tooltier.STD_CONFIG[b]
         d = toolrun.fresh_dir(toolrun.workdir("c14", "p%d_%s" % (i, b)))
 
